@@ -5,6 +5,7 @@ package main
 // and a forward "reaches" query.
 
 import (
+	"fmt"
 	"go/ast"
 	"go/constant"
 	"go/token"
@@ -14,7 +15,8 @@ import (
 )
 
 type Flow struct {
-	P *Prog
+	seenCell map[string]bool
+	P        *Prog
 	// Inter: follow parameters to the arguments at every call site, free variables to closure
 	// bindings, loads of struct fields to every store to that (type, field) in the repository, and calls to
 	// repo functions into their returned values.
@@ -230,6 +232,27 @@ func (F *Flow) backCell(a *ssa.Alloc, path []int, fn *ssa.Function) {
 			case *ssa.Store:
 				root, p := addrPath(s.Addr)
 				if F.sameCell(root, a) && pathPrefixCompatible(p, path) {
+					// a struct copied whole from another local cell: the part asked for is that part of the source
+					if len(p) < len(path) {
+						if ld, ok := s.Val.(*ssa.UnOp); ok && ld.Op == token.MUL {
+							if r2, p2 := addrPath(ld.X); r2 != nil {
+								if b, ok := r2.(*ssa.Alloc); ok {
+									full := append(append([]int{}, p2...), path[len(p):]...)
+									key := fmt.Sprint(b.Name(), b.Pos(), full)
+									if F.seenCell == nil {
+										F.seenCell = map[string]bool{}
+									}
+									if !F.seenCell[key] {
+										F.seenCell[key] = true
+										if F.Visit == nil || F.Visit(ld) {
+											F.backCell(b, full, b.Parent())
+										}
+									}
+									return
+								}
+							}
+						}
+					}
 					F.back(s.Val, -1)
 				}
 			case ssa.CallInstruction:
@@ -576,4 +599,103 @@ func (P *Prog) allocBytes(a *ssa.Alloc) ([]byte, bool) {
 		}
 	}
 	return out, true
+}
+
+// resolveLocal looks through local struct variables that merely carry a value from where it was produced to where it
+// is used: v = load of field f of a local struct (or of a local variable) that is written exactly once for that
+// field — by a field store, or by a copy of a whole struct from another such local — and whose address is not handed
+// to anything. The result is the value that was stored (resolved in turn); v itself when it is not of that form.
+func resolveLocal(v ssa.Value) ssa.Value {
+	for depth := 0; depth < 8; depth++ {
+		ld, ok := v.(*ssa.UnOp)
+		if !ok || ld.Op != token.MUL {
+			return v
+		}
+		var cell *ssa.Alloc
+		field := -1
+		switch a := ld.X.(type) {
+		case *ssa.Alloc:
+			cell = a
+		case *ssa.FieldAddr:
+			cell, _ = a.X.(*ssa.Alloc)
+			field = a.Field
+		}
+		if cell == nil {
+			return v
+		}
+		next := localFieldSource(cell, field, 0)
+		if next == nil {
+			return v
+		}
+		v = next
+	}
+	return v
+}
+
+// localFieldSource: the single value stored into field `field` of the local cell (-1: the cell itself), following
+// whole-struct copies from other local cells; nil when there is not exactly one, or the cell's address escapes.
+func localFieldSource(cell *ssa.Alloc, field int, depth int) ssa.Value {
+	if depth > 6 {
+		return nil
+	}
+	var src ssa.Value
+	n := 0
+	for _, r := range *cell.Referrers() {
+		switch x := r.(type) {
+		case *ssa.Store:
+			if x.Addr != ssa.Value(cell) {
+				return nil // the address itself is stored somewhere
+			}
+			n++
+			if field < 0 {
+				src = x.Val
+				continue
+			}
+			// a whole-struct store: the field comes from the same field of the source
+			switch y := x.Val.(type) {
+			case *ssa.UnOp:
+				if b, ok := y.X.(*ssa.Alloc); ok && y.Op == token.MUL {
+					src = localFieldSource(b, field, depth+1)
+					continue
+				}
+			case *ssa.Call:
+				_ = y
+			}
+			return nil
+		case *ssa.FieldAddr:
+			for _, rr := range *x.Referrers() {
+				switch z := rr.(type) {
+				case *ssa.Store:
+					if z.Addr != ssa.Value(x) {
+						return nil
+					}
+					if x.Field == field {
+						n++
+						src = z.Val
+					}
+				case *ssa.UnOp, *ssa.DebugRef:
+				case *ssa.Slice, *ssa.IndexAddr, *ssa.FieldAddr:
+					if x.Field == field {
+						return nil // the field is an aggregate that is accessed in parts
+					}
+				default:
+					if x.Field == field || field < 0 {
+						return nil
+					}
+					if _, isCall := rr.(ssa.CallInstruction); isCall {
+						// the address of another field handed out: that call cannot write this field
+						continue
+					}
+					return nil
+				}
+			}
+		case *ssa.UnOp, *ssa.DebugRef:
+		default:
+			return nil
+		}
+	}
+	if n != 1 {
+		return nil
+	}
+	return src
 }
